@@ -118,6 +118,8 @@ def step (st : String) (line : String) : String × String :=
   let out : String :=
     match words line with
     | ["#case"] => "#case"
+    | ["layout", n] =>
+      if ["sep", "pageend", "pagestart", "unaligned", "srcdst", "dstsrc"].contains n then "ok" else "bad-op"
     | ["errno", n] =>
       if ["0", "ERANGE", "EINVAL", "EPERM", "ENOMEM", "EILSEQ", "ENOSPC"].contains n then "ok" else "bad-op"
     | ["locale"] => "utf8"
@@ -309,6 +311,7 @@ def step (st : String) (line : String) : String × String :=
   let st' :=
     match words line with
     | ["#case"] => "0"
+    | ["layout", _] => st
     | ["errno", n] => if out = "ok" then n else st
     | _ => errnoAfter st out
   (st', out)
